@@ -465,7 +465,10 @@ BOX_CELLS = {
     "triclinic": np.array(CELLS["triclinic"]),
     "skewed": np.array(SKEW),
     "acute": np.array([[5.0, 0.0, 0.0], [4.9, 1.0, 0.0], [0.0, 0.0, 5.0]]),
+    "monoclinic20_L20": np.array([[20.0, 0.0, 0.0], [20.0 * np.cos(np.radians(20)), 20.0 * np.sin(np.radians(20)), 0.0], [0.0, 0.0, 20.0]]),
+    "monoclinic30_L12": np.array([[12.0, 0.0, 0.0], [12.0 * np.cos(np.radians(30)), 12.0 * np.sin(np.radians(30)), 0.0], [0.0, 0.0, 9.0]]),
 }
+BOX_PARAMS = {"default": {}, "gcut3": dict(gcut=3, gamma=1e-10)}
 
 
 class ImageBox:
@@ -474,11 +477,11 @@ class ImageBox:
     builds are read from its frame when it returns (sys.settrace; the function is not modified) and compared with an exhaustive
     enumeration whose box is guaranteed to contain the sphere (|m_i| <= r |b_i| / 2 pi)."""
 
-    def __init__(self, cell):
-        self.cell = cell
+    def __init__(self, cell, params="default"):
+        self.cell, self.params = cell, params
 
     def __call__(self, ob, tier, seed):
-        ok, info = self.evaluate(dict(cell=self.cell))
+        ok, info = self.evaluate(dict(cell=self.cell, params=self.params))
         if info.get("error"):
             return Result(UNDECIDED, backend="frame-inspection", detail=info["error"])
         if ok:
@@ -513,7 +516,7 @@ class ImageBox:
         old = sys.gettrace()
         sys.settrace(tracer)
         try:
-            energies.get_Eewald(at)
+            energies.get_Eewald(at, **BOX_PARAMS[wit.get("params", "default")])
         finally:
             sys.settrace(old)
         if not all(k in grabbed for k in ("T", "G", "tmax", "gcut")):
@@ -549,6 +552,7 @@ class ImageBox:
 
 
 for _cell in BOX_CELLS:
-    register(Obligation(name=f"C10.get_Eewald.image_box_contains_cutoff_sphere[{_cell}]", prop=PROP, engine="X", functions=["eminus.energies:get_Eewald"],
-                        run=ImageBox(_cell), assumes=("cpython",),
-                        doc=f"{_cell} cell: every lattice vector within tmax and every reciprocal vector within gcut is part of the Ewald sums (exhaustive enumeration)"))
+    for _par in BOX_PARAMS:
+        register(Obligation(name=f"C10.get_Eewald.image_box_contains_cutoff_sphere[{_cell}{'' if _par == 'default' else ',' + _par}]", prop=PROP, engine="X",
+                            functions=["eminus.energies:get_Eewald"], run=ImageBox(_cell, _par), assumes=("cpython",),
+                            doc=f"{_cell} cell ({_par} parameters): every lattice vector within tmax and every reciprocal vector within gcut is part of the Ewald sums (exhaustive enumeration)"))
